@@ -197,3 +197,58 @@ def mapping_protocol(prop, tier, rng):
     return {'violations': viol[:3], 'coverage': {'bounded_pipeline_checks': [
         {'what': 'mapping views of all 65 classes, two rounds in one process', 'inputs': len(rows), 'failures': len(viol),
          'bounded': True}]}}
+
+
+def decode_budget(prop, tier, rng):
+    """C08 (bounded stand-in for the clauses a contract cannot state): decoding steps and peak allocation of
+    frame.unmarshal on valid frames and on frames whose embedded length fields are rewritten, measured natively.
+    Bounds checked: trace events inside pamqp's files <= 60 * len + 3000, peak allocation <= 64 * len + 64 KiB."""
+    import struct
+    n = 60 if tier == 'thorough' else 20
+    frames = []
+    for _ in range(n):
+        t = ref.gen_table(rng, 2)
+        try:
+            table = ref.enc_table(t)
+        except ref.Refused:
+            continue
+        # Queue.Declare (50,10): ticket, queue shortstr, bits, arguments table
+        payload = struct.pack('>I', 0x0032000A) + b'\x00\x00' + b'\x01q' + b'\x00' + table
+        good = b'\x01\x00\x01' + struct.pack('>I', len(payload)) + payload + b'\xce'
+        frames.append(good)
+        body = bytearray(good)
+        # rewrite each embedded 4-octet length (table, strings, arrays, byte arrays) to large values
+        for i in range(7 + 4 + 5, len(body) - 5):
+            if body[i:i + 1] in (b'S', b'x', b'A', b'F'):
+                for big in (0x08000000, 0xFFFFFFFB, 0x7FFFFFFF):
+                    m = bytearray(good)
+                    m[i + 1:i + 5] = struct.pack('>I', big)
+                    frames.append(bytes(m))
+        m = bytearray(good)
+        m[7 + 4 + 5:7 + 4 + 9] = struct.pack('>I', 0x08000000)      # the arguments table itself
+        frames.append(bytes(m))
+    # content header with a headers table
+    frames = frames[:400]
+    jobs = [{'target': 'pyvc.probe.unmarshal_measured', 'args': [values.encode(f)], 'wall_s': 5, 'step_budget': 3000000}
+            for f in frames]
+    outs = replay.native_calls(jobs, timeout=900)
+    viol = []
+    worst = (0, 0)
+    for f, obs, job in zip(frames, outs, jobs):
+        if obs['outcome'] == 'budget':
+            viol.append(_violation(prop, 'frame.unmarshal', job, 'terminates within the step budget', obs))
+            continue
+        if obs['outcome'] != 'return':
+            continue
+        got = values.decode(obs['value'])
+        steps = got['events']
+        worst = (max(worst[0], steps / max(1, len(f))), max(worst[1], got['peak'] / max(1, len(f))))
+        if steps > 60 * len(f) + 3000:
+            viol.append(_violation(prop, 'frame.unmarshal', job, 'at most 60*len+3000 trace events inside pamqp', obs))
+        elif got['peak'] > 64 * len(f) + 65536:
+            viol.append(_violation(prop, 'frame.unmarshal', job, 'peak allocation at most 64*len + 64 KiB', obs))
+    return {'violations': viol[:5], 'coverage': {'bounded_pipeline_checks': [
+        {'what': 'decoding steps and peak allocation of frame.unmarshal on valid frames and on frames with rewritten embedded '
+                 'length fields (tracemalloc, sys.settrace): the time / memory clauses of C08 are only measured, not proved',
+         'inputs': len(jobs), 'worst_steps_per_octet': round(worst[0], 1), 'worst_peak_octets_per_octet': round(worst[1], 1),
+         'failures': len(viol), 'bounded': True}]}}
